@@ -25,7 +25,10 @@ pub fn realise(case: &Value) -> Vec<(String, Value, Value, DecodedMap)> {
         if case.get("how").is_none() {
             // the map reached through its in-place setters (after construction, with whatever root it has): what its
             // getters report afterwards is what writing and reading back must preserve
-            if let Some(mut sm) = build(&m, "new") {
+            // (for the TLC-enumerated cases, which carry no string tables of their own, one case in three)
+            let digest: i64 = m["toks"].as_array().map_or(0, |a| a.iter().flat_map(|t| t.as_array().unwrap().iter().map(|x| x.as_i64().unwrap())).enumerate().map(|(i, x)| (i as i64 + 1) * x).sum());
+            let take = case.get("sources").is_some() || digest.rem_euclid(3) == 0;
+            if let Some(mut sm) = if take { build(&m, "new") } else { None } {
                 let key = m["toks"].as_array().map_or(0, |a| a.len()) as u32;
                 let n = sm.get_source_count();
                 if key % 3 == 1 { sm.set_source_root(Some("moved/ü")); }
